@@ -7,7 +7,7 @@ Lean spec (`exspec` driver mode), whose `Ex.tree` is compared with the tree the 
 from .wf import LEVELS
 
 IDENTS = ["a", "b", "Foo_1", "zz9", "x", "top", "order", "into", "conditional", "m", "obj"]
-LITERALS = ["12", "3.5", "'s t'", "true", "FALSE", "nil"]
+LITERALS = ["12", "3.5", "'s t'", "true", "FALSE", "nil", "'漢漢漢漢'", "'é 😀😀'"]
 ATOMS = IDENTS + LITERALS
 PRE = ["not", "bNot", "@", "inherited", "-"]
 POST = ["++", "--"]
